@@ -24,7 +24,9 @@ func namedErrCell(fn *ssa.Function) ssa.Value {
 	return nil
 }
 
-func runC20(c *Ctx) {
+func runC20(c *Ctx) { runC20Core(c) }
+
+func runC20Core(c *Ctx) {
 	// C20.O1: flushLoop: snapshotForPop ≺ the written.Load that bounds the data slice
 	if fn := c.Fn("C20.O1", "rec.(*LogWriter).flushLoop"); fn != nil {
 		fl := NewFlow(c.P).After("did:snapshotForPop", MethodOn("snapshotForPop", "pendingSyncs"))
